@@ -50,6 +50,16 @@ def discharge(ob: Obligation, facts=None):
     ob.backend = "z3"
     if r == z3.unsat:
         ob.status = "discharged"
+        # vacuity guard: the path condition itself must be satisfiable
+        if not z3.is_true(goal):
+            sv = z3.Solver()
+            sv.set("timeout", 2000)
+            for f in opaque.literal_facts():
+                sv.add(f)
+            for p in ob.pc:
+                sv.add(p)
+            if sv.check() == z3.unsat:
+                ob.info["vacuous"] = True
         if os.environ.get("VERIF_TIER") == "thorough" and not os.environ.get("KVC_NO_CROSS"):
             # thorough tier: second opinion on every discharged obligation
             try:
